@@ -199,6 +199,9 @@ class Interp:
                     raise Unmodelled('indexing %r with %r' % (v[0] if v else None, iv))
                 c = v[1][iv[1]]
             elif isinstance(e, dict) and 'ci' in e:
+                if v is not None and v[0] == 'slice':
+                    c = Cell(('byte', v[1], v[2], e['ci'], bool(e.get('end'))))
+                    continue
                 if v is None or v[0] != 'arr':
                     raise Unmodelled('constant index into %r' % (v[0] if v else None,))
                 i = (len(v[1]) - e['ci']) if e.get('end') else e['ci']
@@ -298,6 +301,14 @@ class Interp:
             a = self.operand(frame, rv['a'])
             if rv['op'] == 'Not' and a[0] == 'bool':
                 return ('bool', None) if a[1] is None else mk_bool(not a[1])
+            if rv['op'] == 'PtrMetadata':
+                d = self.deref_all(a)
+                if d is not None and d[0] == 'slice':
+                    return ('lenv', d[2][1] - d[1][1], d[2][2] - d[1][2])
+                if d is not None and d[0] == 'vec':
+                    return ('int', None)
+                if d is not None and d[0] == 'arr':
+                    return ('int', len(d[1]))
             if a[0] == 'int':
                 return ('int', None)
             raise Unmodelled('unary %s on %r' % (rv['op'], a))
@@ -400,6 +411,7 @@ class Interp:
     def run_body(self, body, args, depth=0):
         if depth > 12:
             raise Unmodelled('call depth')
+        body = getattr(self.facts, 'pristine', {}).get(body.defp, body)
         frame = [Cell(None) for _ in body.locals]
         for i, a in enumerate(args):
             frame[i + 1].v = a
@@ -901,7 +913,16 @@ class Interp:
                     elif seg == 'or_insert_with_key':
                         val = self.call_closure(A[1], [('ref', Cell(('key', h[2])))], depth)
                     else:
-                        raise Unmodelled('or_default on a timestamp slot')
+                        body, t = getattr(self, 'cur', (None, None))
+                        ty = body.local_ty(t['dest']['l']) if body is not None else ''
+                        if 'BTreeSet<' in ty or 'HashSet<' in ty:
+                            val = ('set', set())
+                        elif 'BTreeMap<' in ty or 'HashMap<' in ty:
+                            val = ('map', MapObj('btree' if 'BTreeMap<' in ty else 'hash'))
+                        elif 'Vec<' in ty:
+                            val = ('vec', [])
+                        else:
+                            raise Unmodelled('or_default on a slot of type %s' % ty)
                     h[1].items[h[2]] = Cell(val)
                 return ('ref', h[1].items[h[2]])
             if seg == 'key':
@@ -1065,6 +1086,10 @@ class Interp:
                     x = self.deref_all(x)
                     tgt[1].items[self.key_of(x[1][0].v)] = Cell(self.deref_all(x[1][1].v))
                 return UNIT
+            if tgt[0] == 'set':
+                for x in xs:
+                    tgt[1].add(self.key_of(x))
+                return UNIT
             raise Unmodelled('extend on %s' % tgt[0])
         if name.startswith('alloc::vec::Vec::') or name.startswith('smallvec::SmallVec::') or name.startswith('alloc::slice::') \
                 or name.startswith('core::slice::') or name.startswith('alloc::vec::'):
@@ -1144,8 +1169,8 @@ class Interp:
             out.append(x)
 
     def collect(self, io, t_hint, depth):
+        body, t = getattr(self, 'cur', (None, None))       # (draining runs closures, which moves `cur`)
         xs = self.drain(io, depth)
-        body, t = getattr(self, 'cur', (None, None))
         ty = body.local_ty(t['dest']['l']) if body is not None and t is not None and not t['dest']['p'] else ''
         from facts import ty_head
         h = ty_head(ty)
